@@ -14,11 +14,11 @@ for D in "$@"; do
   name="seed_demo_$id"
   if [ ! -f "$D/demo.rs" ]; then echo "{\"candidate\":\"$D\",\"error\":\"no demo.rs\"}" > "$D/verify.json"; continue; fi
   cp "$D/demo.rs" "tests/$name.rs"
-  RUSTC_WRAPPER= cargo test --offline --test "$name" >"$D/v_demo_without.log" 2>&1; rc_without=$?
+  RUSTFLAGS="--cfg redis_rust_verif" CARGO_TARGET_DIR="$WT/target-verif" RUSTC_WRAPPER= cargo test --offline --test "$name" >"$D/v_demo_without.log" 2>&1; rc_without=$?
   if ! git apply --check -3 "$D/patch.diff" 2>"$D/v_apply.log" && ! git apply --check "$D/patch.diff" 2>>"$D/v_apply.log"; then
     echo "{\"candidate\":\"$D\",\"error\":\"patch does not apply\"}" > "$D/verify.json"; rm -f "tests/$name.rs"; continue; fi
   git apply "$D/patch.diff" 2>/dev/null || git apply -3 "$D/patch.diff"
-  RUSTC_WRAPPER= cargo test --offline --test "$name" >"$D/v_demo_with.log" 2>&1; rc_with=$?
+  RUSTFLAGS="--cfg redis_rust_verif" CARGO_TARGET_DIR="$WT/target-verif" RUSTC_WRAPPER= cargo test --offline --test "$name" >"$D/v_demo_with.log" 2>&1; rc_with=$?
   rm -f "tests/$name.rs"
   RUSTC_WRAPPER= cargo nextest run --workspace --no-fail-fast --offline --test-threads 8 >"$D/v_suite_with.log" 2>&1; rc_suite=$?
   summary=$(grep -E "^\s*Summary" "$D/v_suite_with.log" | tail -1 | sed 's/"/\\"/g')
